@@ -460,7 +460,7 @@ func (c *Ctx) unboxNorm(paths []*Path) []*Path {
 			q.Vals, q.Env = tail.Vals, tail.Env
 			touched = true
 		}
-		if fs := familySteps(c, kf, q.Steps); fs == nil {
+		if fs, feasible := familySteps(c, kf, q.Steps); !feasible {
 			return nil, true
 		} else if len(fs) != len(q.Steps) {
 			q.Steps = fs
@@ -570,9 +570,9 @@ func pruneDecisions(paths []*Path) []*Path {
 
 // familySteps: on a path that established `x is an Object` (x a field), the decision `x.getVal() is an Object` (also asked of the
 // asserted x) is known to be true: stated again it is dropped, denied it makes the path infeasible (nil).
-func familySteps(c *Ctx, kf *kindFacts, steps []Step) []Step {
+func familySteps(c *Ctx, kf *kindFacts, steps []Step) ([]Step, bool) {
 	if len(kf.families) == 0 {
-		return steps
+		return steps, true
 	}
 	isFamily := func(T types.Type) bool {
 		for _, f := range kf.families {
@@ -602,7 +602,7 @@ func familySteps(c *Ctx, kf *kindFacts, steps []Step) []Step {
 				if call, isCall := op.(TCall); isCall && call.Fun != nil && call.Recv != nil && len(call.Args) == 0 && c.isValueAccessor(call.Fun) {
 					if known[c.keyAcc(strip(call.Recv))+"|"+typeKey(T)] {
 						if !s.Cond.Truth {
-							return nil
+							return nil, false
 						}
 						continue
 					}
@@ -611,5 +611,5 @@ func familySteps(c *Ctx, kf *kindFacts, steps []Step) []Step {
 		}
 		out = append(out, s)
 	}
-	return out
+	return out, true
 }
